@@ -71,7 +71,7 @@ fn o14_4_nofeedback_expiry_slow_start() {
     std::mem::forget(c);
 }
 
-//@h props=C14,C13,C03,C11 tier=quick timeout=900 role=rate-nofeedback-eqn
+//@h props=C14,C13,C03,C11 tier=quick timeout=900 role=rate-nofeedback-eqn also_quick=C13
 //@fn SendRateComp::{step, nofeedback_expired, update_rto}, RecvRateSet::{max, reset}, compute_initial_send_rate, s_to_ms
 //@bound one step(now, None) at or after the no-feedback deadline from ANY throughput-equation state with MIN <= X <= ceiling: X, X_Bps (send_rate_tcp), ceiling, idle flag, X_recv_set, RTT estimate (any finite f64 >= 0), times all symbolic
 #[kani::proof]
